@@ -25,7 +25,7 @@ from ..explorer import Step
 
 PROPERTY = "C03"
 ALPHABET = ("send_data L in {1, W, W+1} x pad {None, 1 | 0, 255}; end_stream; WINDOW_UPDATE sid/0 x {1, to 2^31-1, past 2^31-1}; "
-            "SETTINGS INITIAL_WINDOW_SIZE in {0, 5, 65536, 2^31-1}; open next stream; frame limit 16384 or 2^24-1")
+            "SETTINGS INITIAL_WINDOW_SIZE in {0, 5, 65536, 2^31-1}; open next stream; server: push_stream (reserved stream, windows exist), response headers on it; frame limit 16384 or 2^24-1")
 BOUNDS = {"quick": "depth 6, <=2 streams, both roles, two frame-limit configurations", "thorough": "depth 8 (or the per-harness time budget, reported), <=3 streams, pads {None,0,1,255}"}
 MAXW = 2 ** 31 - 1
 sb = H.stateless_block
@@ -44,7 +44,8 @@ class Spec:
         self.name = "c03-%s-%s-%s" % (role, "F2^24" if big else "F16384", tier)
         self.max_depth = 6 if tier == "quick" else 8
         self.max_streams = 2 if tier == "quick" else 3
-        self.pads = [None, 1] if tier == "quick" else [None, 0, 1, 255]
+        # quick: the two frame-limit configurations split the padding values between them
+        self.pads = ([None, 1] if big else [None, 0, 255]) if tier == "quick" else [None, 0, 1, 255]
         self.iws_values = [0, 5, 65536, MAXW]
 
     def initial(self):
@@ -57,15 +58,17 @@ class Spec:
         st.Ws = {}           # sid -> model window (sendable streams)
         st.done = set()      # streams where we sent END_STREAM or that were reset
         st.nstreams = 0
+        st.resv = set()      # promised streams (server role) whose response headers were not sent yet: windows exist, no DATA yet
+        st.npush = 0
         st.dead = False
         return [("start", st)]
 
     def fingerprint(self, st):
         return fingerprint(st.h.conn, st.Wc, st.iws, tuple(sorted(st.Ws.items())), tuple(sorted(st.done)),
-                           st.nstreams, st.dead)
+                           st.nstreams, st.dead, tuple(sorted(st.resv)), st.npush)
 
     def _sids(self, st):
-        return sorted(s for s in st.Ws if s not in st.done)
+        return sorted(s for s in st.Ws if s not in st.done and s not in st.resv)
 
     def actions(self, st):
         if st.dead:
@@ -79,6 +82,14 @@ class Spec:
                     acts.append("send:%d:%s:%s" % (sid, L, "n" if p is None else p))
             acts.append("sendF1:%d" % sid)
             acts.append("end:%d" % sid)
+            for inc in ("1", "max", "over"):
+                acts.append("wu:%d:%s" % (sid, inc))
+        if not self.client and st.npush < 1:
+            for sid in self._sids(st):
+                if sid % 2:
+                    acts.append("push:%d" % sid)
+        for sid in sorted(st.resv):
+            acts.append("activate:%d" % sid)
             for inc in ("1", "max", "over"):
                 acts.append("wu:%d:%s" % (sid, inc))
         for inc in ("1", "max", "over"):
@@ -113,6 +124,27 @@ class Spec:
                 return Step("open-failed", viols, prune=True)
             st.Ws[sid] = st.iws
             out = "open"
+        elif parts[0] == "push":
+            parent = int(parts[1])
+            st.npush += 1
+            promised = 2 * st.npush
+            o = h.api("push_stream", parent, promised, H.ni(H.REQ))
+            if o.kind != "ok":
+                bad("push-failed", "push_stream(%d, %d) failed: %s" % (parent, promised, o.brief()))
+                st.dead = True
+                return Step("push-failed", viols, prune=True)
+            st.Ws[promised] = st.iws        # RFC 7540 6.9.2: a new stream starts with the peer's current INITIAL_WINDOW_SIZE
+            st.resv.add(promised)
+            out = "push"
+        elif parts[0] == "activate":
+            sid = int(parts[1])
+            o = h.api("send_headers", sid, H.ni(H.RESP))
+            if o.kind != "ok":
+                bad("open-failed", "response headers on promised stream %d failed: %s" % (sid, o.brief()))
+                st.dead = True
+                return Step("open-failed", viols, prune=True)
+            st.resv.discard(sid)
+            out = "activate"
         elif parts[0] in ("send", "sendF1"):
             sid = int(parts[1])
             W = min(st.Wc, st.Ws[sid])
@@ -193,6 +225,7 @@ class Spec:
                         st.dead = True
                         return Step("wu-stream-overflow-conn-error", viols, prune=True)
                 st.done.add(sid)
+                st.resv.discard(sid)
                 out = "wu-stream-overflow"
             else:
                 if o.kind != "ok" or o.frames:
@@ -234,7 +267,7 @@ class Spec:
         else:
             raise ValueError(lab)
         # invariant: the accessor reports min(conn, stream) for every live stream
-        for sid in self._sids(st):
+        for sid in self._sids(st) + sorted(x for x in st.resv if x not in st.done):
             try:
                 got = h.conn.local_flow_control_window(sid)
             except Exception as e:  # noqa: BLE001
